@@ -409,6 +409,20 @@ def gen_c04(rng, n, prefix="s"):
             if rng.randrange(25) == 0: toks = pad_selectors(rng, toks, lambda css, st: "sel=%s~%s~~-~-" % (hx(css), st))
             ch = chunkings(rng, data)
             yield "L2 %s%d isz=%d strict=0 %s ops=%s" % (prefix, i, isz, " ".join(toks), ",".join(["W" + c.hex() for c in ch] + ["E"]))
+        # ASCII-case-insensitive attribute operators where operand and value differ in case only, at every position of the value (a fixed share, own PRNG:
+        # independent of the stream above)
+        r2 = random.Random(n * 7919 + 17)
+        for i in range(max(4, n // 40)):
+            word = r2.choice(["ab", "abc", "en-us", "xyz"]); cased = flip(r2, word)
+            if cased == word: cased = word[0].upper() + word[1:]
+            val = r2.choice(["", "xx", "q ", "zz-"]) + (cased[0].swapcase() + flip(r2, word[1:])) + r2.choice(["", "yy", " r", "-w"])
+            n_ = r2.choice(["data-k", "title", "type", "lang", "class"])
+            op = r2.choice(["*=", "*=", "^=", "$=", "~=", "|=", "="]); flag = r2.choice([" i", " i", "", " s"])
+            opc = {"=": "e", "~=": "i", "|=": "d", "^=": "p", "*=": "s", "$=": "x"}[op]
+            cs = "i" if flag == " i" else ("s" if flag == " s" else ("h" if n_.lower() in CI_ATTRS else "s"))
+            data = ('<div><p %s="%s">t</p><span %s="%s">u</span><input %s=\'%s\'></div>' % (n_, val, n_.upper(), val.swapcase(), n_, cased)).encode()
+            css = '[%s%s"%s"%s]' % (n_, op, cased, flag)
+            yield "L2 %sci%d isz=%d strict=0 sel=%s~V%s%s:%s:%s~~-~- ops=%s" % (prefix, i, isz, hx(css), opc, cs, hx(n_), hx(cased), ",".join(["W" + c.hex() for c in chunkings(r2, data)] + ["E"]))
     finally:
         FULL["on"] = False
 
@@ -841,9 +855,10 @@ def gen_nohandlers(rng, n):
             # whatever is unfinished afterwards is still held back as "<" + name only
             root, asks = rng.choice([(b"<svg>", [b"<font>", b"<title/>", b"<desc/>", b"<foreignObject/>", b"<font/>", b"<b-c>"]),
                                      (b"<math>", [b"<annotation-xml>", b"<mi/>", b"<foo-bar>", b"<mtext/>", b"<semantics><annotation-xml>", b"<annotation-xml encoding=x>"])])
-            rest = b"".join(rng.choice([b"<!-- still streaming -->", b'<mrow class="a b c" id="x">', b"<g fill='red' stroke=blue>", b"text ", b"<![CDATA[ x<y ]]>", b"</g>", b"<path d='M0 0'/>", b"<!doctype x>", b"<a b=c>"]) for _ in range(rng.randrange(2, 6)))
+            rest = b"".join(rng.choice([b"<!-- still streaming -->", b'<mrow class="a b c" id="x">', b"<g fill='red' stroke=blue>", b"text ", b"<![CDATA[ x<y ]]>", b"</g>", b"<path d='M0 0'/>", b"<!doctype x>", b"<a b=c>", b"<font-face font-family=x>", b"<linearGradient id=g>", b"<feGaussianBlur in=a>"]) for _ in range(rng.randrange(2, 6)))
             data = rng.choice([b"", b"<p>"]) + root + rng.choice(asks) + rest
-        if rng.randrange(3) == 0: data = rng.choice([b"</ x>", b"</>", b"<?x?>", b"<!x>", b"</ y z>text after", b"<script><!-- </b-c script text goes on and on", b"<script><!--</x1 a b c d e f"]) + data
+        if rng.randrange(3) == 0: data = rng.choice([b"</ x>", b"</>", b"<?x?>", b"<!x>", b"</ y z>text after", b"<script><!-- </b-c script text goes on and on", b"<script><!--</x1 a b c d e f",
+                                                       b"<script><!--<scripts more text and more text", b"<script><!-- x <script_count = 1; y = 2 and so on", b"<script><!--<script-x text text text"]) + data
         chunks = [data[j:j+1] for j in range(len(data))] or [b""]
         yield "L2 nh%d isz=104 strict=%d ops=%s" % (i, 1 if rng.randrange(5) == 0 else 0, ",".join(["W" + c.hex() for c in chunks] + ["E"]))
 
